@@ -135,6 +135,11 @@ Definition trusted (ids : list (N * N)) (c k : N) : bool :=
 (* LiteIdentityKeyStore.saveIdentity: delete + insert ... *)
 Definition save_identity (ids : list (N * N)) (c k : N) : list (N * N) := upd c k ids.
 
+(* variant, shape of seeded defect C17-4 ("one key, one contact"): the DELETE also removes the row of every OTHER
+   contact that holds the same key *)
+Definition save_identity_exclusive (ids : list (N * N)) (c k : N) : list (N * N) :=
+  (c, k) :: filter (fun p => negb ((snd p =? k)%N)) (remove_key c ids).
+
 (* ... + dbConn.commit() *)
 Definition store_identity (a : acct) (c k : N) : acct := commit (set_ids a (save_identity (a_ids a) c k)).
 
